@@ -30,7 +30,7 @@ PHASES = ["main"]
 EXCLUDED_OPS = []
 
 FAULT_KINDS = ["io_extend", "io_setslice", "g_extend", "g_insert_before", "g_insert_after", "g_remove",
-               "g_remove_safe", "init_update", "conv_rename", "conv_rauw", "g_sort_cycle", "io_setslice_ext"]
+               "g_remove_safe", "init_update", "conv_rename", "conv_rauw", "g_sort_cycle", "io_setslice_ext", "conv_rename_graphs"]
 
 
 def strategy(tier, phase):
@@ -175,6 +175,35 @@ def _fault_enum(u, op):
             names = [f"r{j}" for j in range(len(good))]
             names = names[:k] + [outsider.name] + names[k:]
             st, f = attempt(lambda: conv.rename_values(vals, names), f"rename_values@k={min(k,2)}")
+            if f or st == "returned":
+                return calls, f
+    elif kind == "conv_rename_graphs":
+        # multi-element "argument" = the graphs whose initializers one bulk rename touches; the invalid element = the
+        # graph (at every position k) in which the new name collides with an initializer outside the rename set
+        from onnx_ir import convenience as conv
+
+        import onnx_ir as ir
+
+        owners = [g for g in u.graphs if all(g is not getattr(f, "graph", None) for f in getattr(u, "functions", []))][: 2 + nvalid % 2]
+        pairs = []
+        for gi, g in enumerate(owners):
+            try:
+                a = ir.Value(name=f"mg{gi}_{len(u.values)}_a", const_value=u.tensor(0))
+                b_ = ir.Value(name=f"mg{gi}_{len(u.values)}_b", const_value=u.tensor(3))
+                g.initializers.add(a)
+                g.initializers.add(b_)
+            except Exception:
+                continue
+            u.reg_value(a)
+            u.reg_value(b_)
+            pairs.append((g, a, b_))
+        u.sweep()
+        if len(pairs) < 2:
+            return 0, None
+        for k in range(len(pairs)):
+            vals = [a for _, a, _ in pairs]
+            names = [(b_.name if j == k else f"{a.name}_renamed") for j, (_, a, b_) in enumerate(pairs)]
+            st, f = attempt(lambda: conv.rename_values(vals, names), f"rename_values-collision-in-graph@k={min(k,2)}")
             if f or st == "returned":
                 return calls, f
     elif kind == "conv_rauw":
